@@ -15,6 +15,7 @@ import (
 	"golang.org/x/tools/go/ssa"
 
 	"verif/internal/an"
+	"verif/internal/norm"
 	"verif/internal/report"
 	"verif/internal/rules"
 )
@@ -27,6 +28,7 @@ func main() {
 	replay := flag.String("replay", "", "print the findings recorded in a replay file and re-run the property")
 	list := flag.Bool("list", false, "list registered properties")
 	opsFlag := flag.Bool("ops", false, "debug: dump the bucket operation table")
+	normFlag := flag.String("norm", "", "dev: print what the normaliser did; with a file-name substring, also the rewritten text of matching files")
 	fpFlag := flag.Bool("fingerprints", false, "dev: print the anchor fingerprints of the loaded tree as JSON (written to anchors.json for the reviewed tree)")
 	layoutFlag := flag.Bool("layout", false, "debug: dump the constant-offset record accesses of the codec functions")
 	patch := flag.String("patch", "", "analyse /repo with this unified diff applied through a go/packages overlay (scratch copies; /repo is not modified)")
@@ -72,10 +74,21 @@ func main() {
 			os.Exit(3)
 		}
 	}
-	p, err := an.Load(*repo, overlay)
+	p, err := norm.Load(*repo, overlay)
 	if err != nil {
 		fmt.Fprintf(os.Stderr, "mwcheck: cannot analyse %s: %v\n", *repo, err)
 		os.Exit(2)
+	}
+	if *normFlag != "" {
+		for _, n := range p.Norm {
+			fmt.Println(n)
+		}
+		for name, b := range p.Overlay {
+			if *normFlag != "-" && strings.Contains(name, *normFlag) {
+				fmt.Printf("==== %s\n%s\n", name, b)
+			}
+		}
+		return
 	}
 	if *fpFlag {
 		b, _ := json.MarshalIndent(p.Anchors(), "", " ")
